@@ -276,6 +276,9 @@ def run(scenario):
         ctx['cov'] = workload.Coverage(w)
         probe = ctx['probe'] = RouteProbe(w)
         orc = ctx['oracle'] = TableOracle(w, wire, probe)
+        # "an IKE_SA that ends is removed together with its kernel SAs": nothing installed may be left without an owner in the table
+        from sim.monitors import LedgerInvariant
+        ctx['ledger'] = LedgerInvariant(w, PROP)
         dead_spis = ctx['dead'] = []
 
         def spiforge(w, op):
